@@ -23,4 +23,5 @@ props! {
     "C01" => c01,
     "C02" => c02,
     "C03" => c03,
+    "C04" => c04,
 }
